@@ -1,6 +1,6 @@
 """R-RPT-GUARD (C14): an OS repeat is forwarded at most once and only for a key kanata holds down."""
 from kq.analysis import blocks_calling, discr_switches, reach_under_variant
-from kq.core import callee_name
+from kq.core import callee_name, is_place, proj
 from kq.report import RuleResult
 
 KAN = "kanata_state_machine::kanata::"
@@ -219,3 +219,71 @@ def run_collect(prog):
                          "the loop at line %s of %s can be left before all elements were visited: outputs of the remaining elements are "
                          "missing from the repeat table, so OS repeats for them are swallowed" % (ll, f.norm.split("::")[-1]))
     return res
+
+
+def run_scan(prog):
+    """R-RPT-SCAN (C14): the search for the held output key is exhaustive.
+
+    handle_repeat_actual walks the held layers, then the base layer, then defsrc, and within each the key's
+    possible outputs; it stops as soon as it has written the repeat (`return`). A loop that is left early *without*
+    having written anything (`break` once a layer maps the key) skips layers whose output is the one that is
+    actually down: the repeat is swallowed. Rule: from every non-error early exit of a loop in handle_repeat_actual
+    no further write_key call is reachable (i.e. the exit is the `return` after a write, not a jump to the fallbacks).
+    Also: add_kc_output records the key's override outputs on every path (no early return before them)."""
+    res = RuleResult("R-RPT-SCAN", "the repeat lookup leaves its loops early only after writing the repeat", floor=2)
+    f = prog.fn(KAN + "Kanata::handle_repeat_actual")
+    res.fn(f)
+    writes = [b for b, _ in blocks_calling(f, f.reachable(), [KAN + "output_logic::write_key"])]
+    from rules.r_loopvar import loops_of
+    n = 0
+    for li, lp in enumerate(loops_of(f)):
+        bad = None
+        for x in sorted(lp.body):
+            for s_ in f.succs(x):
+                if s_ in lp.body or f.is_cleanup(s_):
+                    continue
+                # the regular exit: iterator exhausted (successor of the switch on next()'s discriminant with value None)
+                if _is_iterator_exhausted_edge(f, lp, x, s_) or f.term(s_)["k"] == "unreachable":
+                    continue
+                # an early exit is fine when it only leads to writing the repeat (every way on to the return passes write_key)
+                if set(f.return_blocks()) & f.reach_from(s_, avoid=writes):
+                    bad = (f.line_of(x), s_)
+        n += 1
+        ok = bad is None
+        res.inst("loop#%d" % li, where="%s:%s" % (f.file, f.line_of(lp.h)), ok=ok)
+        res.oblige(ok)
+        if not ok:
+            res.viol("loop#%d" % li, "%s:%s" % (f.file, bad[0]),
+                     "the loop at line %s of handle_repeat_actual can be left at line %s without a repeat having been written and the "
+                     "search then continues with the fallbacks: held layers (or outputs) that were not looked at yet are skipped, so the "
+                     "repeat of a key whose output comes from one of them is swallowed" % (f.line_of(lp.h), bad[0]))
+    g = prog.fn_opt("kanata_parser::cfg::key_outputs::add_kc_output")
+    if g is None:
+        res.viol("anchor/add_kc_output", "parser/src/cfg/key_outputs.rs", "add_kc_output not found")
+    else:
+        res.fn(g)
+        ov = [bi for bi, t in g.calls() if (callee_name(t) or "").split("::")[-1] == "output_non_mods_for_input_non_mod"]
+        rets = set(g.return_blocks())
+        ok = bool(ov) and not (g.reach_from(0, avoid=ov) & rets)
+        res.inst("add_kc_output/override-outputs-on-every-path", where=g.loc, ok=ok)
+        res.oblige(ok)
+        if not ok:
+            res.viol("add_kc_output/override-outputs-on-every-path", g.loc,
+                     "add_kc_output can return without looking up the key's override outputs (early return when the key is already "
+                     "recorded): a key that entered the list as another key's override output never gets its own override outputs, "
+                     "and OS repeats of those are dropped")
+    return res
+
+
+def _is_iterator_exhausted_edge(f, lp, x, s_):
+    """edge x -> s_ leaves the loop because next() returned None"""
+    t = f.term(x)
+    if t["k"] != "switch" or not is_place(t["d"]):
+        return False
+    d = f.single_def(t["d"]["l"]) if not proj(t["d"]) else None
+    if not d or d[2] != "assign" or d[3]["k"] != "discr":
+        return False
+    src = f.single_def(d[3]["p"]["l"])
+    if not src or src[2] != "call" or not (callee_name(src[3]) or "").endswith("::next"):
+        return False
+    return any(v == 0 and tb == s_ for v, tb in t["ts"])
